@@ -31,6 +31,9 @@ fn main() {
     if args.len() < 2 {
         usage();
     }
+    if args[1] == "c07-child" {
+        std::process::exit(mc::c07::child(&args[2..]));
+    }
     let threads = std::env::var("VERIF_THREADS").ok().and_then(|s| s.parse().ok()).unwrap_or(16usize);
     rayon::ThreadPoolBuilder::new().num_threads(threads).stack_size(64 << 20).build_global().unwrap();
     let code = match args[1].as_str() {
@@ -41,6 +44,11 @@ fn main() {
         "C05" => sweep_cmd(Prop::C05, &["nest", "nestlook", "core", "capback", "onechar"]),
         "C09" => sweep_cmd(Prop::C09, &["core", "capback", "look", "utf8", "lit", "onechar"]),
         "C13" => sweep_cmd(Prop::C13, &["core", "look", "nest", "icase", "lit", "onechar", "mods", "utf8"]),
+        "C07" => {
+            let mut run = Run::new("C07", "exploration");
+            let stats = mc::c07::c07(&mut run);
+            run.finish(&stats)
+        }
         "C10" => simple_cmd("C10", mc::c10::c10),
         "C11" => simple_cmd("C11", mc::c11::c11),
         "C16" => simple_cmd("C16", mc::apichecks::c16),
